@@ -100,6 +100,7 @@ type VC struct {
 	lateVars   map[string]bool
 	usedLib    map[string]bool
 	errFormats []errFmt
+	sprintfs   []sprintfRec // fmt.Sprintf calls with a literal format (suffix model)
 	recDefs    map[string]*recDef
 	lemmaUsed  map[*Lemma]bool
 	lemmaProving *Lemma
